@@ -215,6 +215,21 @@ Theorem backfill_returns_checked_events :
         class_spec PS sig_ok allowed pcall sp_ids sp_state fuel gfuel e psa c psb.
 Proof. intros. eapply backfill_events_checked; eauto. Qed.
 
+(* An event is returned iff, in the sequence of load results of the servers asked (in server
+   order; bf_answers records them), it is the FIRST copy of its event ID classified "no error" or
+   "signature error only": a rejected or unloadable copy from an earlier server does not shadow a
+   good copy from a later one, and a later copy never replaces the one taken. *)
+Theorem backfill_takes_first_good_copy :
+  forall PS sig_ok allowed pcall sp_ids sp_state topo servers_at backfill
+         fuel gfuel vk first rest limit (ps : PS) evs lastErr ps',
+    request_backfill PS sig_ok allowed pcall sp_ids sp_state topo servers_at backfill
+                     fuel gfuel vk (first :: rest) limit ps = (BfResult evs lastErr, ps') ->
+    forall e, In e evs <->
+      first_good_copy
+        (concat (bf_answers PS sig_ok allowed pcall sp_ids sp_state topo backfill fuel gfuel vk limit
+                            (snd (servers_at ps first)) [] [] (fst (servers_at ps first)))) [] e.
+Proof. intros. eapply backfill_first_good_copy; eauto. Qed.
+
 Theorem backfill_nonpositive_limit_returns_nothing :
   forall PS sig_ok allowed pcall sp_ids sp_state topo servers_at backfill
          fuel gfuel vk from_ids limit (ps : PS) evs lastErr ps',
@@ -295,6 +310,7 @@ Print Assumptions send_join_never_out_of_fuel.
 Print Assumptions auth_chain_accepts_iff_total.
 Print Assumptions backfill_returns_unique_ids.
 Print Assumptions backfill_returns_checked_events.
+Print Assumptions backfill_takes_first_good_copy.
 Print Assumptions backfill_nonpositive_limit_returns_nothing.
 Print Assumptions provider_that_keeps_changing_spins.
 Print Assumptions instance_allowed_is_stutter_invariant.
